@@ -1,5 +1,7 @@
 import FlVerif.Op.PyExtWeighted
 import FlVerif.Op.Activation
+import FlVerif.Op.Infer
+import FlVerif.Base.PyAll
 
 /-! # Externals of the translated `RuleBlock.activate`, `Threshold.Comparator.operator` and the factories
 
@@ -8,7 +10,9 @@ import FlVerif.Op.Activation
 * the dictionary `FunctionFactory.objects` as the list of its items (the regenerated element table, one item per row,
   in the order of the table), and the dictionary `ConstructionFactory.constructors` of a factory that registers every
   class under its own name (the key lists `Gen.Tables.*Keys`);
-* dictionaries are lists of items (`Py.Dict` of `PyExtWeighted.lean`). -/
+* dictionaries are lists of items (`Py.Dict` of `PyExtWeighted.lean`);
+* the objects of `Engine.infer_type` / `Variable.highest_membership` / `Variable.fuzzify` are the data of `Op/Infer.lean`
+  (`all(...)` over elements that can raise: `Base/PyAll.lean`). -/
 
 namespace Py.BlockAct
 
